@@ -143,6 +143,49 @@ CLAIMED = {
         "in the executable model and the correspondence, not in the proved invariant; termination (fuel bound) not proved. Actual C accesses are checked by "
         "sanitizers, not proved.",
    design="6/C08", technique="Coq state-and-fault monad over an explicit heap, list-segment reasoning, mutual induction for unref/destroy; sanitizer-backed correspondence (model faults/leaks iff ASan/LSan reports), fork per case"),
+ "C01": dict(
+   text="Machine-checked proof (Coq 8.16, no axioms) over the model of src/window.c (+ a transliteration of rectset.c) on an abstract per-cell render buffer and "
+        "a terminal with an ARBITRARY scroll oracle: do_expose paints exactly the painter's-model composition for any tree (C01_do_expose_paints), a flush - "
+        "with any pending restack queue - turns 'every cell shows the composition or lies in the damage' into 'every cell shows the composition' (C01_flush), "
+        "and new/close/show/hide/queued+applied restacks/geometry changes with their exposes/expose/focus/cursor setters/terminal resize preserve that "
+        "invariant for all trees and rectangles (C01_preserved, C01_term_resize), hence by induction every history over that alphabet "
+        "(C01_history_partial, C01_history_flushed_partial). PARTIAL: preservation by the three scroll operations is not proved; scrolls are covered by the "
+        "three-way correspondence (C vs model vs extracted `compose` oracle) over exhaustive <=3-op histories on 6 base trees x 3 terminals + random histories "
+        "with 5 scroll-acceptance policies (accept / refuse / partial).",
+   note="Holds for the repaired code (fix: e6c2760 and the rectset fix e28fb20); pinned behaviour refuted by C01_refuted_18. Scroll preservation additionally needs "
+        "C05's exactness/disjointness facts for the transliterated rectangle set (WinRectSet.v), not yet connected. Trusted: Coq kernel; hand-written model tied by "
+        "differential testing; the abstract render buffer/terminal (exact for single-width content); handlers repaint what they are asked (the property's proviso).",
+   design="6/C01-C02", technique="Coq invariant proof (ScreenInv) by induction over operation histories, tree induction for do_expose; extracted compose as oracle; differential check on mock and harness grid terminals"),
+ "C02": dict(
+   text="Machine-checked proof (Coq 8.16, no axioms) over the model of window.c's expose/flush on an abstract per-cell render buffer: for ALL window trees, damage "
+        "lists and ALL drawing programs a handler may run (text, erase, char, lines, eraserect, skip, clear at any coordinates, negative and beyond the window) "
+        "the only terminal cells a flush changes lie in the damage and belong, in the composition, to the window that drew them, at the window-relative "
+        "position (C02_confined, C02_programs); every rectangle handed to a handler lies within its window (C02_rect_in_bounds); rectangles handed to one "
+        "window in one flush are disjoint given the rectset invariant (C02_rects_disjoint_partial). Tie: scripted hostile handlers on the mock terminal and a "
+        "harness-owned grid terminal; grid before/after each flush, tree and all handed rectangles compared.",
+   note="Holds for the repaired code (fix: 1e6587a; pinned refuted by C02_refuted_27). The disjointness clause is conditional on the C05 invariant (proved for "
+        "RectSetDefs.v, the window model uses its own transliteration WinRectSet.v; the two are tied to the same C by testing, not yet to each other by proof). "
+        "Trusted: Coq kernel; model; abstract render buffer (exact for single-width content); extraction.",
+   design="6/C01-C02", technique="Coq proof over arbitrary drawing programs via clip/mask/translation bookkeeping of the abstract render buffer; extracted `owner` as oracle; differential check"),
+ "C14": dict(
+   text="Machine-checked proof (Coq 8.16, no axioms) over the model of window.c's input routing: for every tree (overlaps, nesting, hidden subtrees, stealing "
+        "windows, focus placement), every key / mouse event at every cell and every claim pattern of non-mutating handlers, the windows offered the event are "
+        "exactly the prefix of key_order / mouse_order up to the first claimer, with positions relative to the receiver (C14_key, C14_mouse, "
+        "C14_mouse_relative, C14_term_key/_mouse/_mouse_seq); hidden windows and their descendants never receive input (C14_hidden_never); synthesised drag "
+        "events are well-bracketed w.r.t. the press (C14_drag); a window closing/unreferencing ITSELF leaves delivery to the rest unchanged "
+        "(C14_mutation_self_partial). Tie: delivery logs over exhaustive cell x claimer sweeps and random trees with scripted close/destroy inside handlers under ASan.",
+   note="Holds for the repaired code (fix: abd7bb4, 36efd83). PARTIAL for mutation: general theorems for destroying or closing ANOTHER window during routing are "
+        "missing (computed examples + correspondence only; the oracle demands the multiset of the remaining deliveries there). Trusted: Coq kernel; model; extraction.",
+   design="6/C14", technique="Coq proof over a fuel-based pointer-following model against structural order specifications; extracted spec as oracle; differential check with handlers mutating the tree"),
+ "C15": dict(
+   text="Machine-checked proof (Coq 8.16, no axioms) over the model of window.c's focus and cursor code: after a flush (any restack queue) the terminal cursor is "
+        "exactly where cursor_spec puts it - end of the focus chain focused, chain visible, cursor enabled, cell inside every ancestor and owned by that window "
+        "in the composition - or hidden (C15_restore, C15_after_flush, C15_flush_idle), for all trees with unique ids; take_focus emits every OUT before every "
+        "IN and exactly the events the focus specification demands, parents that asked are told of both (C15_focus_order, C15_focus_events). Tie: cursor "
+        "state after every flush and focus event logs over exhaustive <=3-op sequences on 3 base trees + random histories, on the mock terminal and a harness grid driver.",
+   note="Holds for the repaired code (fix: 5f3c28f, b19a835, f73837d; pinned refuted by C15_refuted_19). PARTIAL: C15_requested (every operation that changes "
+        "cursor_spec sets needs_restore or damage) is open, so the whole-history form is carried by the correspondence check. Trusted: Coq kernel; model; extraction.",
+   design="6/C15", technique="Coq proof (structural recursion over the tree, path induction) against cursor_spec/focus_spec; extracted boolean spec as oracle; differential check"),
 }
 
 NA_REASON = "not yet built in this revision: model/proof/correspondence for this property are scheduled (DESIGN.md section 10)"
